@@ -139,19 +139,27 @@ func (e *Encoder) writeList(data interface{}) (int, error) {
 	arrayTypeName := TypeName(typ)
 	listTypeName, ok := e.nameMap[arrayTypeName]
 
+	var err error
 	if !ok || _interfaceTypeName == arrayRootElemName(arrayTypeName) {
 		// fixed-length untyped list
-		e.writeBT(_listFixedUntypedTag)
-		e.writeInt(int32(vv.Len()))
+		if _, err = e.writeBT(_listFixedUntypedTag); err == nil {
+			_, err = e.writeInt(int32(vv.Len()))
+		}
 	} else if vv.Len() <= int(_listFixedTypedLenMax) {
 		// fixed-length typed list
-		e.writeBT(_listFixedTypedLenTagMin + byte(vv.Len()))
-		e.writeString(listTypeName)
+		if _, err = e.writeBT(_listFixedTypedLenTagMin + byte(vv.Len())); err == nil {
+			_, err = e.writeString(listTypeName)
+		}
 	} else {
 		// fixed-length
-		e.writeBT(_listFixedTypedStartTag)
-		e.writeString(listTypeName)
-		e.writeInt(int32(vv.Len()))
+		if _, err = e.writeBT(_listFixedTypedStartTag); err == nil {
+			if _, err = e.writeString(listTypeName); err == nil {
+				_, err = e.writeInt(int32(vv.Len()))
+			}
+		}
+	}
+	if err != nil {
+		return 0, err
 	}
 
 	for i := 0; i < vv.Len(); i++ {
